@@ -132,6 +132,24 @@ def matrix(tier):
                     formal[arg] = {"name": {"ns": ns, "local": ["e1", "a1", "ag1"][i % 3], "prefix": "zz", "as": rep}}
             idn = {"ns": "http://a/", "local": "r1", "prefix": "ex", "as": rep if rep != "rec" else "qn"} if ident else None
             yield {"profile": "json", "ops": [["rec", 0, kind, idn, formal, [], via]], "cell": [kind, via, rep, tform, ident]}
+    # the refusal / no-op rule, exhaustively: every relation kind x every formal argument x same / different value x
+    # dict / pair-list form, on a record that has all its formal arguments
+    for kind in spec.RELATION_KINDS:
+        pname, tname, is_el, fargs, mand, fac, fac_id = spec.KINDS[kind]
+        formal = {}
+        for i, (arg, typ) in enumerate(fargs):
+            if typ == "time":
+                formal[arg] = {"t": "2012-03-02T10:30:00+01:00", "as": "dt"}
+            else:
+                formal[arg] = {"name": {"ns": NSS[i % 3], "local": ["e1", "a1", "ag1"][i % 3], "prefix": "zz", "as": "qn"}}
+        for k, (arg, typ) in enumerate(fargs):
+            for same in (True, False):
+                for form in ("dict", "pairs"):
+                    yield {"profile": "json", "ops": [["rec", 0, kind, None, formal, [], "factory"],
+                                                      ["readd", len(SETUP) - 3, k, same,
+                                                       {"ns": "http://other.example/", "local": "different", "prefix": "oth", "as": "qn"},
+                                                       "1999-12-31T23:59:59", form]],
+                           "cell": ["readd", kind, arg, same, form]}
     # activity with times, every path and time form
     for via, tform in itertools.product(["factory", "new_record"], ["dt", "str"]):
         yield {"profile": "json", "ops": [["rec", 0, "activity", {"ns": "http://a/", "local": "a9", "prefix": "ex", "as": "str"},
